@@ -123,6 +123,7 @@ class Explorer:
                 self._emit(out, state, ("return", st.value))
                 return
             if isinstance(st, ast.Raise):
+                self.on_stmt(st, state)
                 self._emit(out, state, "raise")
                 return
             if isinstance(st, ast.Try):
